@@ -12,7 +12,7 @@ import (
 
 type vEvents map[hash.Event]dag.Event
 
-func (m vEvents) HasEvent(h hash.Event) bool    { _, ok := m[h]; return ok }
+func (m vEvents) HasEvent(h hash.Event) bool      { _, ok := m[h]; return ok }
 func (m vEvents) GetEvent(h hash.Event) dag.Event { return m[h] }
 
 type vFC struct {
